@@ -75,7 +75,7 @@ class Extractor:
             raise AnalysisError("validate: expression depends on a validated field: %s" % canon(e))
         env = {}
         if st is not None:
-            env = {k[1:]: v for k, v in st.items() if isinstance(k, str) and k.startswith("$")}
+            env = {k[1:]: v for k, v in st.items() if isinstance(k, str) and k.startswith("$") and not k.startswith("$alias:")}
         try:
             if env:
                 return Ev(self.repo, self.ci.mod, env=env, self_cls=self.ci).ev(e)
@@ -84,8 +84,33 @@ class Extractor:
             raise AnalysisError("validate: expression outside the vocabulary: %s" % canon(e))
 
     # -- refinement ---------------------------------------------------------
+    def _subst(self, e, st):
+        """locals that stand for an expression over the validated fields (`x = self.nope_ind`, `lens = (self.mod_type.bl,)`)
+        are replaced by that expression (the binding is part of the path's state)"""
+        al = {k[7:]: v for k, v in st.items() if isinstance(k, str) and k.startswith("$alias:")}
+        if not al or not any(isinstance(n_, ast.Name) and n_.id in al for n_ in ast.walk(e)):
+            return e
+        import copy as _copy
+
+        class Sub(ast.NodeTransformer):
+            def visit_Name(self_, node):
+                if isinstance(node.ctx, ast.Load) and node.id in al:
+                    return _copy.deepcopy(al[node.id])
+                return node
+        return ast.fix_missing_locations(Sub().visit(_copy.deepcopy(e)))
+
     def refine(self, st, test, pol):
         """list of states (copies) where `test` evaluates to `pol`"""
+        test = self._subst(test, st)
+        if not self.mentions_field(test) and all(not isinstance(n_, ast.Call) or canon(n_.func) in ("len", "range", "bool", "int") for n_ in ast.walk(test)) \
+                and any(isinstance(n_, ast.Name) and ("$" + n_.id) in st for n_ in ast.walk(test)):
+            # a condition over constant locals only (`if nope_ind:` with nope_ind = False on this path)
+            try:
+                v_ = self.const_of(test, st)
+            except AnalysisError:
+                v_ = None
+            else:
+                return [dict(st)] if bool(v_) == pol else []
         # a condition that reads an attribute of an enum-valued field (`self.mod_type.bl`, `.tsc_sets`, `.coding`) is
         # decided per member: the field is fixed to each member still possible and the attribute becomes that
         # member's constant (None / a non-member would raise AttributeError here: recorded like a None comparison)
@@ -325,7 +350,7 @@ class Extractor:
             d = st[var]
             if d.none or d.syms:
                 return None
-        env0 = {k[1:]: v for k, v in st.items() if isinstance(k, str) and k.startswith("$")}
+        env0 = {k[1:]: v for k, v in st.items() if isinstance(k, str) and k.startswith("$") and not k.startswith("$alias:")}
 
         def at(x):
             env = dict(env0)
@@ -517,6 +542,16 @@ class Extractor:
             self._ret[-1].extend(states)
             return []
         if isinstance(st, ast.Assign) and len(st.targets) == 1 and isinstance(st.targets[0], ast.Name) \
+                and not isinstance(st.value, ast.IfExp) and any(self.mentions_field(self._subst(st.value, s_)) for s_ in states):
+            # local standing for an expression over the fields: kept symbolically, per path
+            out_ = []
+            for s_ in states:
+                s2 = dict(s_)
+                s2.pop("$" + st.targets[0].id, None)
+                s2["$alias:" + st.targets[0].id] = self._subst(st.value, s_)
+                out_.append(s2)
+            return out_
+        if isinstance(st, ast.Assign) and len(st.targets) == 1 and isinstance(st.targets[0], ast.Name) \
                 and self.var_of(st.value) is None:
             # local holding a folded constant (e.g. `allowed = range(0, 4)`), path-sensitive; a conditional
             # expression over the fields splits the states (`range(0, 4) if self.mod_type is X else range(0, 2)`)
@@ -532,6 +567,7 @@ class Extractor:
                     v = self.const_of(value, s)
                     s2 = dict(s)
                     s2["$" + st.targets[0].id] = v
+                    s2.pop("$alias:" + st.targets[0].id, None)
                     out_.append(s2)
                 return out_
             return bind(states, st.value)
